@@ -81,6 +81,7 @@ def run(ctx):
         case = {"kind": "descriptor", "label": label, "mother": dc.mother,
                 "decays": [[k, v.daughters.to_list()] for k, v in dc.decays.items()]}
         want_tree = tree_of(dc)     # the tree the chain was made from, taken before any call on it
+        remember_me = calls[0] % 4 == 1
         calls[0] += 1
         if calls[0] % 3 == 0:
             # read-only calls made before rendering (visible_bf, flatten) leave the chain, hence its descriptor, as it was
@@ -100,6 +101,8 @@ def run(ctx):
             got_tree = read_descriptor(s)
         except Exception as e:
             got_tree = f"unreadable: {e}"
+        if remember_me:
+            res.remember(case, lambda dc=dc: dc.to_string(), s)
         if got_tree != want_tree:
             res.violation("descriptor read back by matching brackets is not the tree", case, impl={"string": s, "read": got_tree}, model=want_tree, clause="read back")
         nested = any(not isinstance(i, str) and any(not isinstance(j, str) for j in i[1]) for i in want_tree[1])
